@@ -163,11 +163,13 @@ func released(s *appstate.AppState, content []*types.Transaction) map[common.Has
 			continue
 		}
 		if err := validation.ValidateTx(s, tx, minFeePerGas, validation.MempoolTx); err != nil {
-			if errors.Cause(err) == validation.InvalidNonce {
+			sender, _ := types.Sender(tx)
+			// a consumed nonce invalidates this transaction alone, its followers stay valid. Decided from the ledger, not
+			// from the identity of the error value the validator returns (the pool must get this right by itself).
+			if errors.Cause(err) == validation.InvalidNonce || s.State.GetEpoch(sender) == epoch && s.State.GetNonce(sender) >= tx.AccountNonce {
 				res[tx.Hash()] = "nonce"
 				continue
 			}
-			sender, _ := types.Sender(tx)
 			if b := minErr[sender]; !b.set || tx.AccountNonce < b.nonce {
 				minErr[sender] = bad{tx.AccountNonce, true}
 			}
